@@ -108,12 +108,13 @@ class Scheduler:
                  | dict(kind='sweep', at=step, to=index) | dict(kind='replay', switches=[[step,to],..])
                  | dict(kind='none')"""
 
-    def __init__(self, rng, strategy, step_cap=60000, line_modules=LINE_MODULES):
+    def __init__(self, rng, strategy, step_cap=60000, line_modules=LINE_MODULES, opcodes=False):
         self.rng = rng
         self.strategy = dict(strategy)
         self.kind = self.strategy.get("kind", "random")
         self.step_cap = step_cap
         self.line_modules = tuple(line_modules)
+        self.opcodes = opcodes      # pre-emption between the bytecodes of one line (f_trace_opcodes) in the line modules
         self.ts = {}
         self.order = []
         self.by_ident = {}
@@ -206,6 +207,9 @@ class Scheduler:
         if event == "call":
             self.coarse.append((self.by_ident.get(_thread.get_ident()), frame.f_code.co_name))
             self.yield_point("call")
+            if k == 2 and self.opcodes:
+                frame.f_trace_opcodes = True
+                return self._trace_opcode
             return self._trace_line if k == 2 else None
         return None
 
@@ -213,6 +217,11 @@ class Scheduler:
         if event == "line":
             self.yield_point("line")
         return self._trace_line
+
+    def _trace_opcode(self, frame, event, arg):
+        if event == "opcode":
+            self.yield_point("opcode")
+        return self._trace_opcode
 
     # ---- decisions
     def yield_point(self, why):
